@@ -71,7 +71,7 @@ def drive(draw, h, cfg):
     if M <= KMAX:
         h.stats['c14_prefix_exhaustive'] += 1
     for k in ks:
-        for catch in (False, True, 'root'):
+        for catch in (False, True if k % 2 == 0 else 'retry', 'root'):
             if h.dead:
                 return
             h.apply(['restore'])
